@@ -76,6 +76,10 @@ class HashedIterable(Generic[T]):
 
     iterable: Iterable[HashedValue[T]] = field(default_factory=list)
     values: Dict[int, HashedValue[T]] = field(default_factory=dict)
+    _source: Optional[Any] = field(default=None, init=False, repr=False, compare=False)
+    """
+    The iterator over `iterable` that is shared by everyone who iterates this object.
+    """
 
     def __post_init__(self):
         if self.iterable and not isinstance(self.iterable, HashedIterable):
@@ -90,6 +94,7 @@ class HashedIterable(Generic[T]):
                 HashedValue(v) if not isinstance(v, HashedValue) else v
                 for v in iterable
             )
+            self._source = None
 
     def get(self, key: int, default: Any) -> HashedValue[T]:
         return self.values.get(key, default)
@@ -139,10 +144,26 @@ class HashedIterable(Generic[T]):
 
         :return: An iterator over the hashed values.
         """
-        yield from self.values.values()
-        for v in self.iterable:
-            self.values[v.id_] = v
-            yield v
+        # Several evaluations may iterate this domain at the same time (nested loops over queries that share a
+        # variable, partially consumed iterators). Each of them replays the cached values by position and only
+        # then pulls from the one shared source, so no consumer can steal a value from another one.
+        position = 0
+        cached = []
+        while True:
+            if position < len(self.values):
+                if position >= len(cached):
+                    cached = list(self.values.values())
+                yield cached[position]
+                position += 1
+                continue
+            if self._source is None:
+                self._source = iter(self.iterable)
+            try:
+                v = next(self._source)
+            except StopIteration:
+                return
+            if v.id_ not in self.values:
+                self.values[v.id_] = v
 
     def __or__(self, other) -> HashedIterable[T]:
         return self.union(other)
